@@ -6,9 +6,35 @@ CODECS = ["dna", "iupac", "amino", "text", "mdna", "miupac", "degen", "x3", "x7"
 BUILTIN = ["dna", "iupac", "amino", "text", "mdna", "miupac", "degen"]
 ORD = ["dna", "text", "mdna", "miupac", "degen", "x3", "x7"]
 
+# which property owns the observation of which operation (used by whole-machine generators: a
+# divergence at step i of a mixed walk is reported by the property owning step i's operation only)
+OWNER = {
+    "parse": "C01", "lit": "C01", "str": "C01",
+    "eq": "C02", "hash": "C02", "mapget": "C02",
+    "obs": "C03",
+    "toint": "C04", "tointtake": "C04", "intoraw": "C04", "fromraw": "C04", "kfromint": "C04",
+    "fromsyms": "C06", "new": "C06", "push": "C06", "extend": "C06", "clear": "C06", "truncate": "C06",
+    "append": "C06", "prepend": "C06", "insert": "C06", "remove": "C06", "clone": "C06", "toowned": "C06",
+    "inplace": "C07", "copying": "C07",
+    "kfrom": "C08", "kparse": "C08", "kmers": "C08", "ktoseq": "C08", "kobs": "C08",
+    "kop": "C09",
+    "cmp": "C10", "kminmax": "C10",
+    "itnew": "C11", "itnext": "C11", "itrun": "C11", "itmix": "C11",
+    "bitop": "C12", "contains": "C12",
+    "toamino": "C13", "trytoamino": "C14", "trytocodon": "C14",
+    "tablenew": "C15", "tableamino": "C15", "tablecodon": "C15",
+    "serde": "C18", "kserde": "C18",
+    "convert": "C19", "trim": "C19", "textbase": "C19",
+}
+
+# the whole-machine random-walk generator (spec/Gen_SYS.tla): (walks per worker, depth)
+def SYS(num):
+    return ("Gen_SYS", "Gen_SYS.cfg", dict(simulate=(num, 20), owned=True))
+
+
 PLAN = {
     "C01": dict(
-        gen=dict(quick=[("Gen_C01", "Gen_C01.cfg")], thorough=[("Gen_C01", "Gen_C01_T.cfg")]),
+        gen=dict(quick=[("Gen_C01", "Gen_C01.cfg"), SYS(25)], thorough=[("Gen_C01", "Gen_C01_T.cfg"), SYS(400)]),
         traces=[("sweep_c01", (1, 2)), ("long_c01", (1, 2)), ("c01", (1, 6)), ("c01x", (None, 1))],
         seeds=dict(quick=1, thorough=6), seeded={"c01x": False},
         mc=dict(quick=["MC_C01"]),
@@ -17,24 +43,29 @@ PLAN = {
              "non-trivial = some sequence involved is non-empty",
     ),
     "C02": dict(
-        traces=[("sweep_c02", (1, 2)), ("long_c02", (1, 2)), ("c02", (1, None)), ("c02all", (None, 4))],
-        seeds=dict(quick=1, thorough=5),
+        gen=dict(quick=[SYS(25)], thorough=[SYS(400)]),
+        traces=[("sweep_c02", (1, 2)), ("long_c02", (1, 2)), ("c02", (1, None)), ("c02all", (None, 4)), ("giant_c02", (None, 1))],
+        codecs={"giant_c02": ["iupac", "miupac"]},
+        seeds=dict(quick=1, thorough=5), seeded={"giant_c02": False},
         mc=dict(quick=["MC_C02"]),
         rule="eq / hash / mapget events over content pairs {equal, one symbol changed first/last/random, "
              "prefix, suffix, empty, +1} in every representation (Seq, &Seq, SeqSlice, &SeqSlice at offsets, "
              "static literal, SeqArray, Kmer on usize/u64/u128, &str); distinct event lines with non-empty operands",
     ),
     "C03": dict(
-        traces=[("sweep_c03", (1, 2)), ("long_c03", (1, 2)), ("c03", (2, 12))],
-        seeds=dict(quick=1, thorough=6),
-        mc=dict(quick=["MC_C03"]),
-        gen=dict(quick=[("Gen_C03", "Gen_C03.cfg")], thorough=[("Gen_C03", "Gen_C03_T.cfg")]),
+        traces=[("sweep_c03", (1, 2)), ("long_c03", (1, 2)), ("c03", (2, 12)), ("giant_c03", (None, 1))],
+        codecs={"giant_c03": ["iupac", "miupac"]},
+        seeds=dict(quick=1, thorough=6), seeded={"giant_c03": False},
+        mc=dict(quick=["MC_C03", "MC_GIANT"]),
+        gen=dict(quick=[("Gen_C03", "Gen_C03.cfg"), SYS(25)], thorough=[("Gen_C03", "Gen_C03_T.cfg"), SYS(400)]),
         rule="obs events over nested range expressions (7 forms, depth <= 3) on owned / literal / k-mer parents of "
              "word-boundary lengths incl. steps just past the end; TLC-enumerated expressions replayed",
     ),
     "C04": dict(
-        traces=[("sweep_c04", (1, 2)), ("long_c04", (1, 2)), ("c04", (2, None)), ("c04all", (None, 4))],
-        seeds=dict(quick=1, thorough=6),
+        gen=dict(quick=[SYS(25)], thorough=[SYS(400)]),
+        traces=[("sweep_c04", (1, 2)), ("long_c04", (1, 2)), ("c04", (2, None)), ("c04all", (None, 4)), ("giant_c04", (None, 1))],
+        codecs={"giant_c04": ["iupac", "miupac"]},
+        seeds=dict(quick=1, thorough=6), seeded={"giant_c04": False},
         mc=dict(quick=["MC_C04"]),
         rule="toint / kfromint / intoraw / fromraw events: slices at offsets with K*BITS <=/> 64, images of "
              "sequences produced by parse / collect / offset copy / rev / comp / bitwise / edits, every count",
@@ -48,31 +79,35 @@ PLAN = {
              "rejection) plus one codecinfo event per codec; both build profiles; finite domain enumerated completely",
     ),
     "C06": dict(
-        traces=[("sweep_c06", (1, 2)), ("long_c06", (1, 2)), ("c06", (400, 3000))],
-        seeds=dict(quick=1, thorough=5),
+        traces=[("sweep_c06", (1, 2)), ("long_c06", (1, 2)), ("c06", (400, 3000)), ("giant_c06", (None, 1))],
+        codecs={"giant_c06": ["iupac", "miupac"]},
+        seeds=dict(quick=1, thorough=5), seeded={"giant_c06": False},
         mc=dict(quick=["MC_C06", "MC_SYS"]),
-        gen=dict(quick=[("Gen_C06", "Gen_C06.cfg")], thorough=[("Gen_C06", "Gen_C06_T.cfg"), ("Gen_C06", "Gen_C06_T3.cfg")]),
+        gen=dict(quick=[("Gen_C06", "Gen_C06.cfg"), SYS(25)], thorough=[("Gen_C06", "Gen_C06_T.cfg"), ("Gen_C06", "Gen_C06_T3.cfg"), SYS(400)]),
         rule="random edit histories (push/extend/append/prepend/insert/remove/truncate/clear/clone/to_owned) on 6 "
              "registers with argument slices at random offsets, full view logged after every step; TLC-enumerated "
              "histories of depth <= 3 replayed",
     ),
     "C07": dict(
-        gen=dict(quick=[("Gen_C07", "Gen_C07.cfg")], thorough=[("Gen_C07", "Gen_C07_T.cfg")]),
-        traces=[("sweep_c07", (1, 2)), ("long_c07", (1, 2)), ("c07", (1, None)), ("c07all", (None, 1))],
-        seeds=dict(quick=1, thorough=5),
+        gen=dict(quick=[("Gen_C07", "Gen_C07.cfg"), SYS(25)], thorough=[("Gen_C07", "Gen_C07_T.cfg"), SYS(400)]),
+        traces=[("sweep_c07", (1, 2)), ("long_c07", (1, 2)), ("c07", (1, None)), ("c07all", (None, 1)), ("giant_c07", (None, 1))],
+        codecs={"giant_c07": ["iupac", "miupac"]},
+        seeds=dict(quick=1, thorough=5), seeded={"giant_c07": False},
         mc=dict(quick=["MC_C07"]),
         rule="copying / inplace transform events (rev, comp, revcomp) on slices at offsets x word-boundary lengths, "
              "compositions and receiver re-observation",
     ),
     "C08": dict(
-        traces=[("sweep_c08", (1, 2)), ("c08", (1, None)), ("c08all", (None, 1))],
-        seeds=dict(quick=1, thorough=5),
+        gen=dict(quick=[SYS(25)], thorough=[SYS(400)]),
+        traces=[("sweep_c08", (1, 2)), ("c08", (1, None)), ("c08all", (None, 1)), ("giant_c08", (None, 1))],
+        codecs={"giant_c08": ["iupac", "miupac"]},
+        seeds=dict(quick=1, thorough=5), seeded={"giant_c08": False},
         mc=dict(quick=["MC_C08"]),
         rule="kfrom / kparse / kmers / ktoseq / deref events for boundary K (quick) or every instantiated K "
              "(thorough) x usize/u64/u128 x slices at offsets x n<K, n=K, n>K",
     ),
     "C09": dict(
-        gen=dict(quick=[("Gen_C09", "Gen_C09.cfg")], thorough=[("Gen_C09", "Gen_C09_T.cfg")]),
+        gen=dict(quick=[("Gen_C09", "Gen_C09.cfg"), SYS(25)], thorough=[("Gen_C09", "Gen_C09_T.cfg"), SYS(400)]),
         traces=[("c09", (1, None)), ("c09all", (None, 1)), ("c09x", (2, 4))],
         seeds=dict(quick=1, thorough=5), seeded={"c09x": False},
         mc=dict(quick=["MC_C09"]),
@@ -80,6 +115,7 @@ PLAN = {
              "on boundary patterns for every K x storage; exhaustive over all k-mers for small K",
     ),
     "C10": dict(
+        gen=dict(quick=[SYS(25)], thorough=[SYS(400)]),
         traces=[("sweep_c10", (1, 2)), ("long_c10", (1, 2)), ("c10", (1, None)), ("c10all", (None, 2))],
         codecs={"sweep_c10": ORD, "long_c10": ORD, "c10": ORD, "c10all": ORD},
         seeds=dict(quick=1, thorough=6),
@@ -89,15 +125,16 @@ PLAN = {
     ),
     "C11": dict(
         apalache=dict(thorough=["ChunksInd"]),
-        traces=[("sweep_c11", (1, 2)), ("long_c11", (1, 2)), ("c11", (1, None)), ("c11all", (None, 2))],
-        seeds=dict(quick=1, thorough=5),
+        traces=[("sweep_c11", (1, 2)), ("long_c11", (1, 2)), ("c11", (1, None)), ("c11all", (None, 2)), ("giant_c11", (None, 1))],
+        codecs={"giant_c11": ["iupac", "miupac"]},
+        seeds=dict(quick=1, thorough=5), seeded={"giant_c11": False},
         mc=dict(quick=["MC_C11"]),
-        gen=dict(quick=[("Gen_C11", "Gen_C11.cfg")], thorough=[("Gen_C11", "Gen_C11_T.cfg")]),
+        gen=dict(quick=[("Gen_C11", "Gen_C11.cfg"), SYS(25)], thorough=[("Gen_C11", "Gen_C11_T.cfg"), SYS(400)]),
         rule="itrun events (iter, into_iter, rev, windows, chunks, chain) with widths 1..n+2 on slices at offsets, "
              "plus step-wise itnew/itnext interleavings (the iterator state machine)",
     ),
     "C12": dict(
-        gen=dict(quick=[("Gen_C12", "Gen_C12.cfg")], thorough=[("Gen_C12", "Gen_C12_T.cfg")]),
+        gen=dict(quick=[("Gen_C12", "Gen_C12.cfg"), SYS(25)], thorough=[("Gen_C12", "Gen_C12_T.cfg"), SYS(400)]),
         traces=[("sweep_c12", (1, 2)), ("long_c12", (1, 2)), ("c12", (1, None)), ("c12all", (None, 1)), ("c12dna", (1, 1))],
         codecs={"sweep_c12": ["iupac"], "long_c12": ["iupac"], "c12": ["iupac"], "c12all": ["iupac"], "c12dna": ["dna"]},
         seeds=dict(quick=1, thorough=5),
@@ -107,7 +144,7 @@ PLAN = {
              "mismatches +-1, +-2",
     ),
     "C13": dict(
-        gen=dict(quick=[("Gen_C13", "Gen_C13.cfg")]),
+        gen=dict(quick=[("Gen_C13", "Gen_C13.cfg"), SYS(25)], thorough=[("Gen_C13", "Gen_C13.cfg"), SYS(400)]),
         traces=[("sweep_c13", (1, 2)), ("long_c13", (1, 2)), ("c13", (30, 300))],
         codecs={"sweep_c13": ["dna"], "long_c13": ["dna"], "c13": ["dna"]},
         seeds=dict(quick=1, thorough=6),
@@ -117,7 +154,7 @@ PLAN = {
              "sequences by windows(3)/chunks(3) and wrong-length codons",
     ),
     "C14": dict(
-        gen=dict(quick=[("Gen_C14", "Gen_C14.cfg")], thorough=[("Gen_C14", "Gen_C14_T.cfg")]),
+        gen=dict(quick=[("Gen_C14", "Gen_C14.cfg"), SYS(25)], thorough=[("Gen_C14", "Gen_C14_T.cfg"), SYS(400)]),
         traces=[("c14", (1, None)), ("c14all", (None, 1)), ("c14order", (1, 1))],
         codecs={"c14": ["iupac"], "c14all": ["iupac"], "c14order": ["iupac"]}, seeded={"c14": False, "c14all": False, "c14order": False},
         mc=dict(quick=["MC_C14"]),
@@ -153,6 +190,7 @@ PLAN = {
         assumptions=["rustc's accept/reject verdict on a generated program is taken as observed (TLC never sees inside the compiler)"],
     ),
     "C18": dict(
+        gen=dict(quick=[SYS(25)], thorough=[SYS(400)]),
         traces=[("sweep_c18", (1, 2)), ("long_c18", (1, 2)), ("c18", (6, None)), ("c18all", (None, 12))],
         seeds=dict(quick=1, thorough=6),
         mc=dict(quick=["MC_C06"]),
@@ -160,7 +198,7 @@ PLAN = {
              "reversal, removals) and on k-mers of boundary / every K and storage",
     ),
     "C19": dict(
-        gen=dict(quick=[("Gen_C19", "Gen_C19.cfg")], thorough=[("Gen_C19", "Gen_C19_T.cfg")]),
+        gen=dict(quick=[("Gen_C19", "Gen_C19.cfg"), SYS(25)], thorough=[("Gen_C19", "Gen_C19_T.cfg"), SYS(400)]),
         traces=[("sweep_c19", (1, 2)), ("long_c19", (1, 2)), ("c19conv", (2, 10)), ("c19trim", (5, 6))],
         codecs={"sweep_c19": ["dna"], "long_c19": ["dna"], "c19conv": ["dna"]},
         seeds=dict(quick=1, thorough=6),
